@@ -6,6 +6,12 @@ import Mathlib.Tactic.Positivity
 import Mathlib.Algebra.Order.Field.Basic
 
 /-! # C20 — definitions used in the statements (order conditions) and helper lemmas for the controller -/
+set_option linter.unusedVariables false
+set_option linter.unusedSimpArgs false
+set_option linter.unusedTactic false
+set_option linter.unreachableTactic false
+set_option linter.unusedSectionVars false
+
 namespace C20
 
 section OrderDefs
